@@ -686,6 +686,12 @@ def main():
     it.is_enum, it.repr = True, 'u8'
     it.variants = [Variant('Unit', 'u', [], disc=9), Variant('Data', 'x', [Field(None, u8)], disc=5), Variant('Rec', 'n', [Field('a', u16)], disc=2),
                    Variant('Zero', 'x', [Field(None, bl)], disc=0)]
+    # struct-like variants that share member names while the helper attributes differ from one occurrence to the other
+    it = cat_item()
+    it.is_enum = True
+    it.variants = [Variant('Transfer', 'n', [Field('amount', T('u', n=64), compact=True), Field('to', u8)]),
+                   Variant('Refund', 'n', [Field('amount', T('u', n=64)), Field('to', u8, skip=True)]),
+                   Variant('Hold', 'n', [Field('amount', T('u', n=64), skip=True), Field('to', u32, compact=True), Field('x', bl)])]
     # `#[codec(index = ..)]` in every spelling of an integer literal
     it = cat_item()
     it.is_enum = True
